@@ -17,6 +17,8 @@ LEVEL_TEXT = ("Coq theorems over an exact-rational (missing value = None) model 
               "column (variance 0 for constant traits); the stored matrix is centred with unit variance; every history of "
               "select/delete/insert/adjoin (+ in-place remove) yields exactly the list-level operation on raw rows and labels; the inherited "
               "concat_taxa/append_taxa/incorp_taxa are shown NOT to preserve raw values (refuted by witness, proved under the guard location=0, scale=1 / equal parameters); "
+              "the float round trip rnd(rnd(s*rnd(rnd(1/s)*rnd(x-l)))+l) is within 4u|x-l|+u|x|+O(u^2) of x in the standard model of floating-point "
+              "arithmetic, instantiated for 53-bit round-to-nearest (Flocq FLX); DenseScaledMatrix: untransform inverts transform, unscale/rescale in place keep scale*mat+location; "
               "the model is tied to the code by evaluating it inside Coq against every intermediate state of generated histories")
 LEVEL_NOTE = ("trusted: Coq kernel + vm_compute; float rounding is not modelled: location and scale of every step are taken from the implementation and "
               "checked inside Coq against the exact nanmean / nanvar (scale = 1 exactly iff the exact variance is 0), everything else is compared within "
@@ -27,7 +29,9 @@ RULE = ("case = (class B/E/G, raw matrix with optional taxa/taxa_grp labels, lis
         "matrix, location, scale, op list); one PRNG; n in 0..20 (1,2 frequent), t in 1..4; per-trait column kinds: dyadic grid k/2^6, constant, few-valued "
         "(ties), offset +-2^20 with step 8, NaN-sprinkled, all-NaN; operands as ndarray or as a second matrix of any of the three classes; "
         "non-trivial = at least 2 operations of which one changes the taxa list of a matrix with >= 2 distinct raw rows; distinct by SHA-256 of the case")
-TRUSTED = ["numpy nanmean/nanstd/std/var/max/min/ptp/argmax/argmin: not modelled bit-exactly; their results enter the model as given location/scale "
+TRUSTED = ["the rounding-error theorem is about an abstract rounding operator with relative error u (Flocq FLX instance: no overflow/underflow); that numpy's float64 "
+           "operations are such roundings is not proved, the predicate checks the bound (with slack 5u(|x-l|+|x|)) on every first-step entry",
+           "numpy nanmean/nanstd/std/var/max/min/ptp/argmax/argmin: not modelled bit-exactly; their results enter the model as given location/scale "
            "(checked against exact nanmean/nanvar in Coq) or are compared in regime T (2^-30 relative) with the exact rational",
            "numpy.take/delete/insert/append index semantics are modelled by list functions validated on every generated case"]
 ASSUMPTIONS = ["raw values on dyadic grids (|x| <= 64 step 2^-6, or +-2^20 offsets with step 8) so that the rounding error stays far below the 2^-30 tolerance",
@@ -514,7 +518,7 @@ def _check_state(tag, exp, snap, t, first, strict_nan_mean, bad):
                 if not _close(loc[j], mean): B("trait %d: location %s is not the mean of the observed raw values %s" % (j, float(loc[j]), float(mean)))
                 if const:
                     if sc[j] != 1:
-                        if exp.exact and 0 < sc[j] <= TOL * (1 + abs(mean)):
+                        if 0 < sc[j] <= TOL * (1 + abs(mean)):
                             B("[const-rounding] trait %d: constant trait stored with scale %r instead of 1 (rounding residue taken for spread)" % (j, float(sc[j])))
                         elif exp.exact: B("trait %d: constant trait has scale %r, expected 1" % (j, float(sc[j])))
                     elif any(v is not None and v != 0 for v in mcol) and exp.exact: B("trait %d: constant trait not stored as zeros" % j)
